@@ -663,8 +663,13 @@ class _MutableSetMixin:
         return self
 
     def __iand__(self, it):
-        for value in (self - it):
-            self.discard(value)
+        # Like the C implementation: rebuild from the members of ``it``
+        # that are also here.  (Going through ``self - it`` sorted a
+        # plain iterable, which fails for None next to other keys, and
+        # left a differently shaped tree than the C implementation.)
+        keep = [value for value in it if value in self]
+        self.clear()
+        self.update(keep)
         return self
 
     def __isub__(self, it):
